@@ -393,6 +393,13 @@ type propSpec struct {
 	// assumptions and trusted base, shown in evidence
 	assumptions []string
 	notCovered  string
+	// variants: other build configurations the property's rules are evaluated on in the thorough tier
+	variants []buildVariant
+}
+
+type buildVariant struct {
+	name string
+	env  []string
 }
 
 func sanitizeKey(s string) string {
